@@ -609,6 +609,61 @@ fn device_sweep(ctx: &Ctx) {
     });
 }
 
+/// One symbol, several uses: a symbol whose value depends on where it is used (it reads `pc`, directly or through
+/// another symbol, or a `.set` that is assigned again) is in range at its first use and out of range at a later
+/// one. The later line is unencodable and fails the build - whatever the symbol was worth before.
+fn symbol_used_again_cases(ctx: &Ctx) {
+    let mut n = 0u64;
+    for (mn, tail, hi, pre) in [("adiw r24,", "", 63i64, ""), ("ldi r16,", "", 255, ""), ("sbi", ", 0", 31, ""), ("ldd r0, Y+", "", 63, ""), ("out", ", r0", 63, ""), ("sbrc r1,", "", 7, ""), ("lds r16,", "", 0xbf, ".device ATtiny20\n")] {
+        let line = |k: &str| if mn == "sbi" || mn == "out" { format!("\t{} {}{}\n", mn, k, tail) } else { format!("\t{} {}{}\n", mn, k, tail) };
+        for (dn, defs) in [
+            ("pc-directly", ".equ k = pc - 40\n".to_string()),
+            ("pc-through-another-equ", ".equ here = pc\n.equ k = here - 40\n".to_string()),
+            ("pc-through-two-equs", ".equ here = pc\n.equ there = here + 0\n.equ k = there - 40\n".to_string()),
+            ("pc-through-an-equ-defined-later", ".equ k = here - 40\n".to_string()),
+            ("pc-in-a-function", ".equ here = pc\n.equ k = low(here - 40)\n".to_string()),
+        ] {
+            // first use at word 40 + v1 (in range), second at 40 + hi + 1 + extra (out of range)
+            for (v1, extra) in [(0i64, 0i64), (hi, 0), (hi / 2, 5), (1, 300)] {
+                let a1 = 40 + v1;
+                let a2 = 40 + hi + 1 + extra;
+                if dn == "pc-in-a-function" && a2 - 40 > 255 {
+                    continue;
+                }
+                let later = if dn == "pc-through-an-equ-defined-later" { ".equ here = pc\n" } else { "" };
+                let src = format!("; C04 symbol used again\n{}{}.org {}\n{}.org {}\n{}{}", pre, defs, a1, line("k"), a2, line("K"), later);
+                let out = fw::build_str(&src);
+                ctx.eval(1);
+                n += 1;
+                ctx.distinct(fw::hash_str(&src));
+                if !out.is_err() {
+                    ctx.violation(
+                        format!("guard/{}/symbol-used-again/{}", mn.split_whitespace().next().unwrap_or("?"), dn),
+                        format!("`{} k` at word {} (k = {}) and again at word {} (k = {}, not encodable): {}", mn.trim_end_matches(','), a1, v1, a2, a2 - 40, fw::clip(&format!("{:?}", out.brief()), 120)),
+                        json!({"source": src, "symbol_used_again": true, "observed": out.brief()}),
+                    );
+                }
+            }
+        }
+        // the same through a .set that is assigned again between the uses
+        for v2 in [hi + 1, hi + 200, -300] {
+            let src = format!("; C04 symbol used again\n{}.set k = {}\n{}.set K = {}\n{}", pre, hi, line("k"), v2, line("k"));
+            let out = fw::build_str(&src);
+            ctx.eval(1);
+            n += 1;
+            ctx.distinct(fw::hash_str(&src));
+            if !out.is_err() {
+                ctx.violation(
+                    format!("guard/{}/symbol-used-again/set-assigned-again", mn.split_whitespace().next().unwrap_or("?")),
+                    format!("`{} k` with k = {} and again after `.set K = {}`: {}", mn.trim_end_matches(','), hi, v2, fw::clip(&format!("{:?}", out.brief()), 120)),
+                    json!({"source": src, "symbol_used_again": true, "observed": out.brief()}),
+                );
+            }
+        }
+    }
+    ctx.put("symbol_used_again_builds", json!(n));
+}
+
 pub fn run(ctx: &Ctx) -> i32 {
     if let Err(e) = isa::selfcheck() {
         println!("HARNESS-FAILURE property=C04 {}", e);
@@ -635,10 +690,11 @@ pub fn run(ctx: &Ctx) -> i32 {
     }
     fw::par_for(cases.len() as u64, 256, |i| run_case(ctx, &cases[i as usize]));
     device_sweep(ctx);
+    symbol_used_again_cases(ctx);
     ctx.exhaustive.store(true, std::sync::atomic::Ordering::Relaxed);
     fw::finish(
         ctx,
-        "per instruction form and legal anchor tuple, one operand at a time leaves its ISA domain: every register r0..r31 in each register position, every number in [lo-300, hi+300] plus ±2^k, ±2^k±1, ±i64::MAX and i64::MIN in each numeric position, operand-kind substitutions, 0..arity-1, arity+1 and arity+2..arity+257 operands, and for every two-operand form the complete cross product every register x every register / boundary value (thorough: two operands out at once, ±70000 windows on 16/22-bit fields); plus a device sweep: every device of the table x every form it has x each operand just outside, just inside and far outside (by 4095..2^32) its field; exhaustive for those windows; every register, cross-product and kind-confusion line (and a quarter of the numeric windows; thorough: all) once more with registers through `.def` aliases and numbers through `.equ` symbols, once more as the body of a macro with the operands as arguments, and with every number written as a computed expression of the same value (12 shapes: complement, sums, negations, parenthesised, right-grouped differences / quotients / shifts; quick: the complement and one other shape, one of them through a macro argument; thorough: all shapes both ways); every must-reject line of that subset once more with what makes it unencodable behind a mid-line block comment (`0 /* base */ + 64`, `r1 /* rest */ , r2, r3`: refused one way or the other, never assembled from what stands in front of the comment); distinct_nontrivial = distinct must-reject source lines",
+        "per instruction form and legal anchor tuple, one operand at a time leaves its ISA domain: every register r0..r31 in each register position, every number in [lo-300, hi+300] plus ±2^k, ±2^k±1, ±i64::MAX and i64::MIN in each numeric position, operand-kind substitutions, 0..arity-1, arity+1 and arity+2..arity+257 operands, and for every two-operand form the complete cross product every register x every register / boundary value (thorough: two operands out at once, ±70000 windows on 16/22-bit fields); plus a device sweep: every device of the table x every form it has x each operand just outside, just inside and far outside (by 4095..2^32) its field; exhaustive for those windows; every register, cross-product and kind-confusion line (and a quarter of the numeric windows; thorough: all) once more with registers through `.def` aliases and numbers through `.equ` symbols, once more as the body of a macro with the operands as arguments, and with every number written as a computed expression of the same value (12 shapes: complement, sums, negations, parenthesised, right-grouped differences / quotients / shifts; quick: the complement and one other shape, one of them through a macro argument; thorough: all shapes both ways); every must-reject line of that subset once more with what makes it unencodable behind a mid-line block comment (`0 /* base */ + 64`, `r1 /* rest */ , r2, r3`: refused one way or the other, never assembled from what stands in front of the comment); seven instructions each used twice with one symbol that is in range at the first use and out of range at the second (the symbol reads pc directly, through one or two other .equ symbols, through one defined later, inside a function; or is a .set assigned again in between): must fail; distinct_nontrivial = distinct must-reject source lines",
         &[
             "legality = refmodel/isa.rs operand domains (manual transcription)",
             "8-bit immediates written as -128..-1 are accepted as two's complement or rejected (statement silent); ld/st written with a displacement and ldd/std written with increment, decrement or X forms are must-reject (the ISA defines no such form for that mnemonic); `ldd Rd, Y` without displacement is not probed",
@@ -647,6 +703,16 @@ pub fn run(ctx: &Ctx) -> i32 {
 }
 
 pub fn replay(ctx: &Ctx, case: &Value) -> i32 {
+    if case["symbol_used_again"].as_bool() == Some(true) {
+        let out = fw::build_str(case["source"].as_str().unwrap_or(""));
+        ctx.eval(1);
+        ctx.distinct(1);
+        ctx.distinct(2);
+        if !out.is_err() {
+            ctx.violation("guard/replay", "the line that is not encodable is still assembled", case.clone());
+        }
+        return fw::finish(ctx, "replay", &[]);
+    }
     if case["device_sweep"].as_bool() == Some(true) {
         let out = fw::build_str(case["source"].as_str().unwrap_or(""));
         ctx.eval(1);
